@@ -173,7 +173,24 @@ struct TaskCtx {
 static thread_local TaskCtx *tc = nullptr;
 
 static inline bool in_lib() { return tc && tc->inlib > 0 && tc->inwrap == 0; }
-struct WrapGuard { bool on; WrapGuard() : on(tc != nullptr) { if (on) tc->inwrap++; } ~WrapGuard() { if (on) tc->inwrap--; } };
+// ThreadSanitizer flavour: memory accesses are recorded only while library code runs.  Every thread
+// starts inside an "ignore" region (harness code, incl. libc calls made by it through interceptors);
+// entering the library leaves the region, wrappers and the callback re-enter it.
+extern "C" {
+void AnnotateIgnoreReadsBegin(const char *, int) __attribute__((weak));
+void AnnotateIgnoreReadsEnd(const char *, int) __attribute__((weak));
+void AnnotateIgnoreWritesBegin(const char *, int) __attribute__((weak));
+void AnnotateIgnoreWritesEnd(const char *, int) __attribute__((weak));
+}
+static inline void tsan_ignore_begin() { if (AnnotateIgnoreReadsBegin) { AnnotateIgnoreReadsBegin(__FILE__, __LINE__); AnnotateIgnoreWritesBegin(__FILE__, __LINE__); } }
+static inline void tsan_ignore_end() { if (AnnotateIgnoreReadsEnd) { AnnotateIgnoreReadsEnd(__FILE__, __LINE__); AnnotateIgnoreWritesEnd(__FILE__, __LINE__); } }
+static inline void lib_enter() { tc->inlib++; if (tc->inlib == 1) tsan_ignore_end(); }
+static inline void lib_leave() { if (tc->inlib == 1) tsan_ignore_begin(); tc->inlib--; }
+struct WrapGuard {
+  bool on;
+  WrapGuard() : on(tc != nullptr) { if (on) { if (tc->inwrap == 0 && tc->inlib > 0) tsan_ignore_begin(); tc->inwrap++; } }
+  ~WrapGuard() { if (on) { tc->inwrap--; if (tc->inwrap == 0 && tc->inlib > 0) tsan_ignore_end(); } }
+};
 
 static void log_event(const char *what, const std::string &path, long long res, int err) {
   Event e; e.seq = ++R.seq; e.task = tc ? tc->id : -1; e.op = tc ? tc->op : -1; e.what = what; e.path = path; e.res = res; e.err = err;
@@ -498,21 +515,21 @@ static json tree_entry(const json &e) {
 static json dump_ext(econf_file *kf, const char *group, const char *key) {
   json r = json::object();
   econf_ext_value *ev = nullptr;
-  tc->inlib++; econf_err rc = econf_getExtValue(kf, group, key, &ev); tc->inlib--;
+  lib_enter(); econf_err rc = econf_getExtValue(kf, group, key, &ev); lib_leave();
   r["rc"] = (int)rc;
   if (rc == ECONF_SUCCESS && ev) {
     json vals = json::array();
     for (char **v = ev->values; v && *v; v++) vals.push_back(J(*v));
     r["values"] = vals; r["file"] = J(ev->file); r["line"] = ev->line_number;
     r["cb"] = J(ev->comment_before_key); r["ca"] = J(ev->comment_after_value);
-    tc->inlib++; econf_freeExtValue(ev); tc->inlib--;
+    lib_enter(); econf_freeExtValue(ev); lib_leave();
   }
   return r;
 }
 static json dump_keys(econf_file *kf, const char *group, bool ext) {
   json r = json::object();
   size_t n = 0; char **keys = nullptr;
-  tc->inlib++; econf_err rc = econf_getKeys(kf, group, &n, &keys); tc->inlib--;
+  lib_enter(); econf_err rc = econf_getKeys(kf, group, &n, &keys); lib_leave();
   r["rc"] = (int)rc;
   if (rc != ECONF_SUCCESS) return r;
   json ks = json::array();
@@ -520,35 +537,80 @@ static json dump_keys(econf_file *kf, const char *group, bool ext) {
     json k = json::object();
     k["k"] = J(keys[i]);
     char *val = nullptr;
-    tc->inlib++; econf_err vr = econf_getStringValue(kf, group, keys[i], &val); tc->inlib--;
+    lib_enter(); econf_err vr = econf_getStringValue(kf, group, keys[i], &val); lib_leave();
     k["rc"] = (int)vr;
-    if (vr == ECONF_SUCCESS) { k["v"] = J(val); tc->inlib++; free(val); tc->inlib--; }
+    if (vr == ECONF_SUCCESS) { k["v"] = J(val); lib_enter(); free(val); lib_leave(); }
     if (ext) k["x"] = dump_ext(kf, group, keys[i]);
     ks.push_back(k);
   }
   r["keys"] = ks;
-  tc->inlib++; econf_freeArray(keys); tc->inlib--;
+  lib_enter(); econf_freeArray(keys); lib_leave();
   return r;
 }
 static json dump_obj(econf_file *kf, bool ext) {
   json r = json::object();
   if (!kf) { r["null"] = true; return r; }
-  tc->inlib++;
+  lib_enter();
   char dl = econf_delimiter_tag(kf), cm = econf_comment_tag(kf);
   char *path = econf_getPath(kf);
-  tc->inlib--;
+  lib_leave();
   r["delim"] = (int)(unsigned char)dl; r["comment"] = (int)(unsigned char)cm; r["path"] = J(path);
-  tc->inlib++; free(path); tc->inlib--;
+  lib_enter(); free(path); lib_leave();
   size_t ng = 0; char **groups = nullptr;
-  tc->inlib++; econf_err rc = econf_getGroups(kf, &ng, &groups); tc->inlib--;
+  lib_enter(); econf_err rc = econf_getGroups(kf, &ng, &groups); lib_leave();
   r["groups_rc"] = (int)rc;
   json gl = json::array();
   r["nogroup"] = dump_keys(kf, nullptr, ext);
   if (rc == ECONF_SUCCESS) {
     for (size_t i = 0; i < ng; i++) { json g = dump_keys(kf, groups[i], ext); g["g"] = J(groups[i]); gl.push_back(g); }
-    tc->inlib++; econf_freeArray(groups); tc->inlib--;
+    lib_enter(); econf_freeArray(groups); lib_leave();
   }
   r["groups"] = gl;
+  return r;
+}
+
+// every listing and every typed / defaulted / extended getter on every listed key (C04)
+static json exercise_obj(econf_file *kf) {
+  json r = json::object();
+  if (!kf) { r["skipped"] = true; return r; }
+  long long calls = 0, bad = 0; std::map<int, long long> rcs;
+  auto note = [&](econf_err rc) { calls++; rcs[(int)rc]++; if ((int)rc < 0 || (int)rc > 24) bad++; };
+  std::vector<std::string> groups; bool have_groups = false;
+  { size_t n = 0; char **g = nullptr; lib_enter(); econf_err rc = econf_getGroups(kf, &n, &g); lib_leave(); note(rc);
+    if (rc == ECONF_SUCCESS) { have_groups = true; for (size_t i = 0; i < n; i++) groups.push_back(g[i] ? g[i] : ""); lib_enter(); econf_freeArray(g); lib_leave(); } }
+  (void)have_groups;
+  lib_enter(); char *pth = econf_getPath(kf); free(pth); (void)econf_delimiter_tag(kf); (void)econf_comment_tag(kf); lib_leave();
+  long long nkeys = 0;
+  for (size_t gi = 0; gi <= groups.size(); gi++) {
+    const char *grp = gi == 0 ? nullptr : groups[gi - 1].c_str();
+    size_t n = 0; char **keys = nullptr;
+    lib_enter(); econf_err rc = econf_getKeys(kf, grp, &n, &keys); lib_leave(); note(rc);
+    if (rc != ECONF_SUCCESS) continue;
+    std::string bracketed = grp ? "[" + std::string(grp) + "]" : "";
+    for (size_t i = 0; i < n; i++) {
+      nkeys++;
+      const char *k = keys[i];
+      for (int sp = 0; sp < (grp ? 2 : 1); sp++) {
+        const char *g = sp == 0 ? grp : bracketed.c_str();
+        lib_enter();
+        { int32_t v = 0; note(econf_getIntValue(kf, g, k, &v)); note(econf_getIntValueDef(kf, g, k, &v, 1)); }
+        { int64_t v = 0; note(econf_getInt64Value(kf, g, k, &v)); note(econf_getInt64ValueDef(kf, g, k, &v, 1)); }
+        { uint32_t v = 0; note(econf_getUIntValue(kf, g, k, &v)); note(econf_getUIntValueDef(kf, g, k, &v, 1)); }
+        { uint64_t v = 0; note(econf_getUInt64Value(kf, g, k, &v)); note(econf_getUInt64ValueDef(kf, g, k, &v, 1)); }
+        { float v = 0; note(econf_getFloatValue(kf, g, k, &v)); note(econf_getFloatValueDef(kf, g, k, &v, 1)); }
+        { double v = 0; note(econf_getDoubleValue(kf, g, k, &v)); note(econf_getDoubleValueDef(kf, g, k, &v, 1)); }
+        { bool v = false; note(econf_getBoolValue(kf, g, k, &v)); note(econf_getBoolValueDef(kf, g, k, &v, true)); }
+        { char *v = nullptr; econf_err e = econf_getStringValue(kf, g, k, &v); note(e); if (e == ECONF_SUCCESS) free(v);
+          v = nullptr; char d[] = "d"; e = econf_getStringValueDef(kf, g, k, &v, d); note(e); if (e == ECONF_SUCCESS || e == ECONF_NOKEY) free(v); }
+        lib_leave();
+      }
+      { econf_ext_value *ev = nullptr; lib_enter(); econf_err e = econf_getExtValue(kf, grp, k, &ev); note(e);
+        if (e == ECONF_SUCCESS && ev) { for (char **v = ev->values; v && *v; v++) calls += 0 * (long long)strlen(*v); econf_freeExtValue(ev); } lib_leave(); }
+    }
+    lib_enter(); econf_freeArray(keys); lib_leave();
+  }
+  r["keys"] = nkeys; r["calls"] = calls; r["rc_out_of_enum"] = bad;
+  json h = json::object(); for (auto &x : rcs) h[std::to_string(x.first)] = x.second; r["rcs"] = h;
   return r;
 }
 
@@ -605,7 +667,7 @@ static void put_slot(TaskCtx *t, int idx, econf_file *p) {
 }
 static const char *ptr_state(const void *p) { return !p ? "null" : (p == (void *)SENTINEL ? "sentinel" : "obj"); }
 
-struct LibCall { LibCall() { sim_yield(2); tc->inlib++; } ~LibCall() { tc->inlib--; sim_yield(2); } };
+struct LibCall { LibCall() { sim_yield(2); lib_enter(); } ~LibCall() { lib_leave(); sim_yield(2); } };
 
 template <class T> static json num_json(T v) { return v; }
 static json num_json(float v) { uint32_t b; memcpy(&b, &v, 4); char s[64]; snprintf(s, sizeof s, "%.9g", (double)v); return json{{"bits", b}, {"s", s}}; }
@@ -625,6 +687,9 @@ static json exec_op(TaskCtx *t, const json &op) {
   int oi = (int)I(op, "o", -1);
 
 #define STR(name) OptStr name = S(op, #name)
+  if (op.contains("need")) {
+    for (auto &k : op["need"]) if (!slot(t, op, k.get<std::string>().c_str())) { r["skipped"] = true; t->faults = nullptr; t_expected_cb = nullptr; return r; }
+  }
   if (o == "newKeyFile") {
     econf_file *kf = sentinel ? SENTINEL : nullptr;
     econf_err rc; { LibCall L; rc = econf_newKeyFile(&kf, (char)I(op, "delim", '='), (char)I(op, "comment", '#')); }
@@ -739,6 +804,8 @@ static json exec_op(TaskCtx *t, const json &op) {
     if (op.contains("comment")) econf_set_comment_tag(kf, (char)I(op, "comment"));
   } else if (o == "dump") {
     r = dump_obj(slot(t, op, "k"), op.value("ext", true));
+  } else if (o == "exercise") {
+    r = exercise_obj(slot(t, op, "k"));
   } else if (o == "dumpHistory") {
     auto h = t->hslots.find((int)I(op, "h", -1)); json a = json::array();
     if (h != t->hslots.end()) for (size_t i = 0; i < h->second.second; i++) a.push_back(dump_obj(h->second.first[i], op.value("ext", true)));
@@ -848,18 +915,20 @@ static void run_task_ops(TaskRun *tr) {
   tc->op = i;
   // release whatever the plan did not release itself (reported, so that plans stay honest)
   int auto_freed = 0;
-  for (auto &s : tc->slots) { tc->inlib++; econf_freeFile(s.second); tc->inlib--; auto_freed++; }
+  for (auto &s : tc->slots) { lib_enter(); econf_freeFile(s.second); lib_leave(); auto_freed++; }
   tc->slots.clear();
-  for (auto &h : tc->hslots) { tc->inlib++; for (size_t k = 0; k < h.second.second; k++) econf_freeFile(h.second.first[k]); free(h.second.first); tc->inlib--; auto_freed++; }
+  for (auto &h : tc->hslots) { lib_enter(); for (size_t k = 0; k < h.second.second; k++) econf_freeFile(h.second.first[k]); free(h.second.first); lib_leave(); auto_freed++; }
   tc->hslots.clear();
   tr->results.push_back(json{{"auto_freed", auto_freed}});
   tc = nullptr;
 }
 static void *task_main(void *a) {
   TaskRun *tr = (TaskRun *)a;
+  tsan_ignore_begin();
   sched_task_enter(tr->ctx.id);
   run_task_ops(tr);
   sched_task_exit(tr->ctx.id);
+  tsan_ignore_end();
   return nullptr;
 }
 
@@ -878,13 +947,13 @@ static void normalise_library_state() {
   TaskCtx boot; tc = &boot; boot.op = -1;
 #pragma GCC diagnostic push
 #pragma GCC diagnostic ignored "-Wdeprecated-declarations"
-  tc->inlib++; econf_reset_security_settings();
-  const char *none[] = {nullptr}; tc->alloc_cls = 1; econf_set_conf_dirs(none); tc->alloc_cls = 0; tc->inlib--;
+  lib_enter(); econf_reset_security_settings();
+  const char *none[] = {nullptr}; tc->alloc_cls = 1; econf_set_conf_dirs(none); tc->alloc_cls = 0; lib_leave();
 #pragma GCC diagnostic pop
   std::string prime = g_root + "/.prime";
   write_file(prime, "prime=1\nsecond=2\n");
   econf_file *kf = nullptr;
-  tc->inlib++; econf_readFile(&kf, prime.c_str(), "=", "#"); econf_freeFile(kf); tc->inlib--;
+  lib_enter(); econf_readFile(&kf, prime.c_str(), "=", "#"); econf_freeFile(kf); lib_leave();
   unlink(prime.c_str());
   tc = nullptr;
 }
@@ -1009,6 +1078,7 @@ int main(int argc, char **argv) {
   }
   if (!root) { fprintf(stderr, "usage: lesim --root /dev/shm/lesim-XXXX [--plan file]\n"); return 2; }
   g_root = root;
+  tsan_ignore_begin();
   mkdirs(g_root);
   signal(SIGPIPE, SIG_IGN);
   FILE *in = stdin;
@@ -1033,5 +1103,6 @@ int main(int argc, char **argv) {
   }
   free(line);
   clear_sandbox(); rmdir(g_root.c_str());
+  tsan_ignore_end();
   return 0;
 }
